@@ -440,9 +440,10 @@ func TestProp(t *testing.T) {
 			}
 			// the package may be addressed in any spelling; the reference run uses ./p
 			spell := rapid.SampledFrom([]string{"./p", "./p", "subj/p", "./...", "dot"}).Draw(rt, "spelling")
-			if m.hidden == "deleted" && (spell == "subj/p" || (spell == "./..." && (!stepHadOld || corrupt != ""))) {
-				// an import path does not name a directory without sources, and ./... only finds the directory through a
-				// derived.gen.go that parses: goderive exits 1 on these, which is no successful run
+			if m.hidden != "" && spell != "./p" && spell != "dot" && (m.hidden == "deleted" && spell == "subj/p" || !stepHadOld || corrupt != "") {
+				// an import path does not name a directory without sources, and patterns only find a directory without
+				// buildable sources through a derived.gen.go that parses: goderive exits 1 otherwise ("matched no
+				// packages"), which is no successful run
 				spell = "./p"
 			}
 			var res gorun.Result
